@@ -151,3 +151,38 @@ Proof.
       cbn [flat_map] in Hf. rewrite app_length, Hec in Hf.
       unfold CRLF in Hf. rewrite !app_length in Hf. cbn [length] in Hf. lia.
 Qed.
+
+(** ---------- sanitisation is "each line break becomes one SP", up to a trailing blank ---------- *)
+
+Lemma san_breaks_len : forall n v, (length v <= n)%nat -> breaks_to_sp v = san v \/ breaks_to_sp v = san v ++ [32].
+Proof.
+  induction n as [|n IH]; intros v Hn.
+  - destruct v; [left; reflexivity|cbn in Hn; lia].
+  - destruct v as [|c r]; [left; reflexivity|]. cbn [length] in Hn. cbn [breaks_to_sp san].
+    destruct (c =? 13) eqn:E1.
+    + destruct r as [|d r']; [right; reflexivity|]. cbn [length] in Hn. destruct (d =? 10) eqn:E2.
+      * destruct r' as [|e r'']; [right; reflexivity|].
+        destruct (IH (e :: r'')) as [H|H]; [cbn [length] in *; lia|left|right]; rewrite H; reflexivity.
+      * destruct (IH (d :: r')) as [H|H]; [cbn [length]; lia|left|right]; rewrite H; reflexivity.
+    + destruct (c =? 10) eqn:E2.
+      * destruct r as [|d r']; [right; reflexivity|].
+        destruct (IH (d :: r')) as [H|H]; [cbn [length] in *; lia|left|right]; rewrite H; reflexivity.
+      * destruct (IH r) as [H|H]; [lia|left|right]; rewrite H; reflexivity.
+Qed.
+
+Lemma san_breaks v : breaks_to_sp v = san v \/ breaks_to_sp v = san v ++ [32].
+Proof. apply (san_breaks_len (length v)). lia. Qed.
+
+Lemma drop_ws_snoc l : drop_ws (l ++ [32]) = match drop_ws l with [] => [] | x => x ++ [32] end.
+Proof.
+  induction l as [|c l IH]; [reflexivity|]. cbn [app drop_ws]. destruct (is_ws c) eqn:E; [exact IH|reflexivity].
+Qed.
+
+Lemma trim_ows_snoc_sp l : trim_ows (l ++ [32]) = trim_ows l.
+Proof.
+  unfold trim_ows. rewrite drop_ws_snoc. destruct (drop_ws l) as [|x xs] eqn:E; [reflexivity|].
+  rewrite rev_app_distr. reflexivity.
+Qed.
+
+Lemma san_is_breaks_to_sp_modulo_ows v : trim_ows (san v) = trim_ows (breaks_to_sp v).
+Proof. destruct (san_breaks v) as [H|H]; rewrite H; [reflexivity|]. rewrite trim_ows_snoc_sp. reflexivity. Qed.
